@@ -210,7 +210,14 @@ void array_cases(Catalogue& c, bool thorough)
         }
     };
     char const* const z = N == 0 ? "zero_size+" : "";
+#if defined(MC_FLAVOUR_CHKFAST)
+    // only TETL_ENABLE_CONTRACT_CHECKS: the TETL_PRECONDITION_SAFE sites of operator[] are compiled out by design
+    (void)thorough;
+    (void)z;
+    for (auto b : std::vector<BadArg>{}) {
+#else
     for (auto b : bad_values(N, thorough)) {
+#endif
         row(true, "array::operator[](pos)", cat(z, "index_", b.cls), cat("a[", show_sz(b.v), "]"), [=](A& a) { touch(a[b.v]); });
         row(true, "array::operator[](pos) const", cat(z, "index_", b.cls), cat("ca[", show_sz(b.v), "]"), [=](A& a) { touch(static_cast<A const&>(a)[b.v]); });
     }
